@@ -93,13 +93,15 @@ def _as_val(r):
     return ('val', vals) if tag in ('Some', 'Bool') else (tag, vals)
 
 
-def run(ctx):
-    for K in None or []:
-        pass
+def families(ctx):
     ks = []
     ctx.guarded('C07/locate-kernels', lambda: ks.extend(kernels(ctx)))
-    for K in ks:
-        ctx.guarded(K.name, lambda K=K: run_kernel(ctx, K))
+    return [(K.name, (lambda K=K: run_kernel(ctx, K))) for K in ks]
+
+
+def run(ctx):
+    for name, fn in families(ctx):
+        ctx.guarded(name, fn)
     ctx.bounds += ['all i64 / u32 inputs at full width (Int-mode encoding, no unrolling: kernels are loop-free)']
     ctx.assumptions += ['model catalogue (mir2smt/models.py) for core::num checked_*/rem_euclid/is_negative and Option/Try plumbing',
                         'rustc MIR of the working tree (nightly, overflow-checks=on) is the semantics of the kernels',
